@@ -819,6 +819,129 @@ def gen_formatters() -> List[str]:
     return out
 
 
+def gen_name_funcs(t_utils: ast.Module) -> List[str]:
+    """utils.py: the case-style converters the renderers and the linter apply to ACCEPTED names
+    (pascal_case, snake_case, upper_case, keep_case and the module-level helpers they call).
+    Static analysis of their partial operations: `v[<int>]` on a possibly empty string and
+    `m.group(..)` on a possibly-None match object must be dominated by a test of v / m
+    (`if v:`, `x if v else y`, or an earlier `if not v: return/continue/raise`)."""
+    funcs = {n.name: n for n in t_utils.body if isinstance(n, ast.FunctionDef)}
+    roots = ["pascal_case", "snake_case", "upper_case", "keep_case"]
+    for r in roots:
+        if r not in funcs:
+            raise Broken(f"translator(C09): utils.{r} not found")
+    todo, seen = list(roots), []
+    while todo:
+        f = todo.pop()
+        if f in seen:
+            continue
+        seen.append(f)
+        for n in ast.walk(funcs[f]):
+            if isinstance(n, ast.Call) and isinstance(n.func, ast.Name) and n.func.id in funcs:
+                todo.append(n.func.id)
+            if isinstance(n, ast.Name) and n.id in funcs and n.id not in seen:
+                todo.append(n.id)
+    unguarded: List[str] = []
+
+    def tested(test: ast.expr) -> Set[str]:
+        """names known to be truthy when `test` holds"""
+        if isinstance(test, ast.Name):
+            return {test.id}
+        if isinstance(test, ast.BoolOp) and isinstance(test.op, ast.And):
+            out: Set[str] = set()
+            for v in test.values:
+                out |= tested(v)
+            return out
+        if (isinstance(test, ast.Compare) and len(test.ops) == 1 and isinstance(test.ops[0], (ast.Gt, ast.GtE))
+                and isinstance(test.left, ast.Call) and ast.unparse(test.left.func) == "len"
+                and isinstance(test.left.args[0], ast.Name)):
+            return {test.left.args[0].id}
+        if isinstance(test, ast.Compare) and len(test.ops) == 1 and isinstance(test.ops[0], ast.IsNot) \
+                and isinstance(test.left, ast.Name):
+            return {test.left.id}
+        return set()
+
+    def refuted(test: ast.expr) -> Set[str]:
+        """names known to be truthy when `test` is FALSE (`not v`)"""
+        if isinstance(test, ast.UnaryOp) and isinstance(test.op, ast.Not):
+            return tested(test.operand)
+        if isinstance(test, ast.BoolOp) and isinstance(test.op, ast.Or):
+            out: Set[str] = set()
+            for v in test.values:
+                out |= refuted(v)
+            return out
+        return set()
+
+    def leaves(body: List[ast.stmt]) -> bool:
+        return bool(body) and isinstance(body[-1], (ast.Return, ast.Continue, ast.Raise, ast.Break))
+
+    def expr(fname: str, e: ast.AST, ok: Set[str]) -> None:
+        if isinstance(e, ast.IfExp):
+            expr(fname, e.test, ok)
+            expr(fname, e.body, ok | tested(e.test))
+            expr(fname, e.orelse, ok | refuted(e.test))
+            return
+        if isinstance(e, ast.BoolOp) and isinstance(e.op, ast.And):
+            acc = set(ok)
+            for v in e.values:
+                expr(fname, v, acc)
+                acc |= tested(v)
+            return
+        if isinstance(e, ast.Subscript) and isinstance(e.value, ast.Name) and isinstance(e.slice, ast.Constant) \
+                and isinstance(e.slice.value, int) and e.value.id not in ok:
+            unguarded.append(f"{fname}:{ast.unparse(e)}@{e.lineno}")
+        if isinstance(e, ast.Call) and isinstance(e.func, ast.Attribute) and e.func.attr in ("group", "start", "end") \
+                and isinstance(e.func.value, ast.Name) and e.func.value.id not in ok:
+            unguarded.append(f"{fname}:{ast.unparse(e)}@{e.lineno}")
+        for ch in ast.iter_child_nodes(e):
+            expr(fname, ch, ok)
+
+    def block(fname: str, body: List[ast.stmt], ok: Set[str]) -> None:
+        ok = set(ok)
+        for st in body:
+            if isinstance(st, ast.If):
+                expr(fname, st.test, ok)
+                block(fname, st.body, ok | tested(st.test))
+                block(fname, st.orelse, ok | refuted(st.test))
+                if leaves(st.body) and not st.orelse:
+                    ok |= refuted(st.test)
+            elif isinstance(st, (ast.For, ast.While)):
+                expr(fname, st.iter if isinstance(st, ast.For) else st.test, ok)
+                inner = set(ok)
+                if isinstance(st, ast.For):
+                    for n in ast.walk(st.target):
+                        if isinstance(n, ast.Name):
+                            inner.discard(n.id)
+                block(fname, st.body, inner)
+                block(fname, st.orelse, ok)
+            elif isinstance(st, (ast.Assign, ast.AnnAssign, ast.AugAssign)):
+                if st.value is not None:
+                    expr(fname, st.value, ok)
+                tg = st.targets if isinstance(st, ast.Assign) else [st.target]
+                for t in tg:
+                    for n in ast.walk(t):
+                        if isinstance(n, ast.Name):
+                            ok.discard(n.id)
+            elif isinstance(st, (ast.Return, ast.Expr)):
+                if st.value is not None:
+                    expr(fname, st.value, ok)
+            elif isinstance(st, (ast.Continue, ast.Break, ast.Pass)):
+                pass
+            elif isinstance(st, ast.FunctionDef):
+                block(fname + "." + st.name, strip_doc(st), set())
+            else:
+                raise Broken(f"translator(C09): utils.{fname}: unsupported statement {type(st).__name__}",
+                             ast.unparse(st)[:200])
+
+    for f in sorted(seen):
+        block(f, strip_doc(funcs[f]), set())
+    return ["(* utils.py: case-style converters applied to accepted names by the renderers and the linter;\n"
+            "   partial operations (v[k] on a possibly empty string, m.group() on a possibly-None match) that are\n"
+            "   NOT dominated by a test of v / m *)\n"
+            f"Definition name_funcs_analysed : list string := {clist(cstr(f) for f in sorted(seen))}.\n"
+            f"Definition name_funcs_unguarded : list string := {clist(cstr(u) for u in unguarded)}."]
+
+
 def gen_source_reading(t_par: ast.Module, parser_errors: Set[str]) -> List[str]:
     """Parser.parse (how the file is read) and p_import (is a NUL in the path refused first?)"""
     out = []
@@ -1001,6 +1124,8 @@ def gen_c09() -> Tuple[str, Dict[str, str]]:
     out.append(gen_options(t_opt))
     out.extend(gen_formatters())
     out.extend(gen_source_reading(t_par, parser_errors))
+    _, t_utils = _src("compiler/bitproto/utils.py")
+    out.extend(gen_name_funcs(t_utils))
     out.append("")
     out.append("(* notes of the translator:")
     for n in sorted(set(notes)):
